@@ -63,6 +63,8 @@ func addRegRoute(ws *restful.WebService, root, p string) {
 	}).To(func(req *restful.Request, resp *restful.Response) { resp.Write([]byte(tag)) }))
 }
 
+var regHistSeq int
+
 func regHandler(p string) http.Handler {
 	return http.HandlerFunc(func(w http.ResponseWriter, r *http.Request) { w.Write([]byte("h:" + p)) })
 }
@@ -93,7 +95,7 @@ func regProbe(c *restful.Container, entry, path string) (proj string, class stri
 		}
 	}()
 	body := rec.Body.String()
-	proj = fmt.Sprintf("%d|%s|%s|%s", rec.Code, body, wireHeader(rec).Get("Location"), esc)
+	proj = fmt.Sprintf("%d|%s|%s|%s|%s", rec.Code, body, wireHeader(rec).Get("Location"), esc, wireHeader(rec).Get("X-CF"))
 	switch {
 	case esc != "":
 		class = "other"
@@ -122,8 +124,24 @@ func safely(f func()) (pv string) {
 	return ""
 }
 
+// regHandleFiltered: plain handlers of this history are registered with HandleWithFilter (the container filter
+// marks every response it sees with X-CF)
+var regHandleFiltered bool
+
+func regHandle(c *restful.Container, pattern string) {
+	if regHandleFiltered {
+		c.HandleWithFilter(pattern, regHandler(pattern))
+	} else {
+		c.Handle(pattern, regHandler(pattern))
+	}
+}
+
 func newRegContainer(router string) *restful.Container {
 	c := restful.NewContainer()
+	c.Filter(func(req *restful.Request, resp *restful.Response, chain *restful.FilterChain) {
+		resp.AddHeader("X-CF", "1")
+		chain.ProcessFilter(req, resp)
+	})
 	if router == "jsr311" {
 		c.Router(restful.RouterJSR311{})
 	}
@@ -134,6 +152,9 @@ var regProbes = []string{"/a/dup#v", "/ab/dup#v", "/q/dup#v", "/dup#v", "/a/dup"
 	"/a/x", "/a/b/x", "/ab/x", "/a/q/c/x", "/q/x", "/a/dyn", "/a/dyn2", "/q/dyn2", "/ab/dyn2", "/users/7/a", "/users/7/b/x", "/x", "/a/b/dyn"}
 
 func runRegHistory(tw *traceWriter, h regHistory, router string) {
+	regHistSeq++
+	regHandleFiltered = regHistSeq%2 == 0
+	defer func() { regHandleFiltered = false }()
 	tw.emit(map[string]interface{}{"e": "rhist", "ops": h.Ops, "router": router})
 	c := newRegContainer(router)
 	live := map[string]*restful.WebService{} // root -> the object registered in c
@@ -165,14 +186,14 @@ func runRegHistory(tw *traceWriter, h regHistory, router string) {
 				afterRemove = true
 			}
 		case "handle":
-			pv = safely(func() { c.Handle(op[1], regHandler(op[1])) })
+			pv = safely(func() { regHandle(c, op[1]) })
 			if pv == "" {
 				handlers = append(handlers, []string{op[1], op[1]})
 			}
 		case "badhandle":
 			// a registration that net/http may refuse (the pattern is taken): Handle panics, as documented, the
 			// caller recovers, and the container is as it was
-			if refused := safely(func() { c.Handle(op[1], regHandler(op[1])) }); refused == "" {
+			if refused := safely(func() { regHandle(c, op[1]) }); refused == "" {
 				op = []string{"handle", op[1]}
 				handlers = append(handlers, []string{op[1], op[1]})
 			}
@@ -288,7 +309,7 @@ func runRegHistory(tw *traceWriter, h regHistory, router string) {
 		}
 		for _, hp := range handlers {
 			hp := hp
-			if p := safely(func() { fresh.Handle(hp[0], regHandler(hp[0])) }); p != "" {
+			if p := safely(func() { regHandle(fresh, hp[0]) }); p != "" {
 				freshPanic = p
 			}
 		}
